@@ -243,3 +243,9 @@ if __contracts__:
     __contracts__[0].extra_checks = [native_bounded(
         "filter_pre.py", "LinearFilter.__call__ before code generation (memory normalisation, causality, a0 == 0)",
         "denominator lengths 1..5, memory kinds {None, list exact/longer, tuple, generator, Stream, callable}", ["C04"])]
+
+
+from pyvc.bounded import bounded_check
+_tv = [c for c in __contracts__ if "C06" in c.props]
+if _tv:
+    _tv[0].extra_checks = [bounded_check("bounded.c06", "time-varying-filter-algebra-and-a0-stream", ["C06"])]
